@@ -1,1 +1,252 @@
-fn main() {}
+//! C19 — regex compilation, automaton parsing and base64 decoding are exact.
+
+mod product;
+mod refx;
+
+use product::{explore, ImplAut};
+use refx::{RefAut, RefExpr};
+use serde_json::json;
+use vcore::{catch, CaseOut, Ctx, Level, Tier, Viol};
+
+// ---------------------------------------------------------------------------------------------
+// the expression space
+// ---------------------------------------------------------------------------------------------
+
+#[derive(Clone, Copy, Debug, PartialEq)]
+pub enum U {
+    Neg,
+    Star,
+    Plus,
+    Opt,
+    Rep2,
+    AtMost2,
+    MarkA2,
+}
+#[derive(Clone, Copy, Debug, PartialEq)]
+pub enum B {
+    Cat,
+    Union,
+    Inter,
+    Minus,
+    SepList,
+    SepNeList,
+}
+pub const UNARY: [U; 7] = [U::Neg, U::Star, U::Plus, U::Opt, U::Rep2, U::AtMost2, U::MarkA2];
+pub const BINARY: [B; 6] = [B::Cat, B::Union, B::Inter, B::Minus, B::SepList, B::SepNeList];
+
+pub fn un(op: U, e: &RefExpr) -> RefExpr {
+    let b = Box::new(e.clone());
+    match op {
+        U::Neg => RefExpr::Neg(b),
+        U::Star => RefExpr::Star(b),
+        U::Plus => RefExpr::Plus(b),
+        U::Opt => RefExpr::Opt(b),
+        U::Rep2 => RefExpr::Repeat(b, 2),
+        U::AtMost2 => RefExpr::AtMost(b, 2),
+        U::MarkA2 => RefExpr::MarkBytes(b, vec![b'a'], 2),
+    }
+}
+pub fn bin(op: B, l: &RefExpr, r: &RefExpr) -> RefExpr {
+    let (x, y) = (Box::new(l.clone()), Box::new(r.clone()));
+    match op {
+        B::Cat => RefExpr::Cat(vec![l.clone(), r.clone()]),
+        B::Union => RefExpr::Union(vec![l.clone(), r.clone()]),
+        B::Inter => RefExpr::Inter(vec![l.clone(), r.clone()]),
+        B::Minus => RefExpr::Minus(x, y),
+        B::SepList => RefExpr::SepList(x, y),
+        B::SepNeList => RefExpr::SepNeList(x, y),
+    }
+}
+
+fn atoms(n: usize) -> Vec<RefExpr> {
+    let all = vec![
+        RefExpr::byte(b'a'),
+        RefExpr::Bytes(vec![b'a', b'b']),
+        RefExpr::marked(b'a', 1),
+        RefExpr::byte(b'b'),
+        RefExpr::AnyByte,
+        RefExpr::Eps,
+        RefExpr::marked(b'b', 2),
+    ];
+    all[..n].to_vec()
+}
+
+/// All expressions of depth exactly 1 over the atoms.
+fn depth1(at: &[RefExpr]) -> Vec<RefExpr> {
+    let mut v = vec![];
+    for a in at {
+        for op in UNARY {
+            v.push(un(op, a));
+        }
+    }
+    for op in BINARY {
+        for a in at {
+            for b in at {
+                v.push(bin(op, a, b));
+            }
+        }
+    }
+    v
+}
+
+// ---------------------------------------------------------------------------------------------
+// one expression
+// ---------------------------------------------------------------------------------------------
+
+pub enum Verdict {
+    IllFormed,
+    RefCapped(usize),
+    NonOd { impl_panicked: bool },
+    Panic(String),
+    Checked { states: u64, transitions: u64, mismatch: Option<product::Mismatch>, dead: usize, out_of_range: bool },
+}
+
+pub fn compile(e: &RefExpr) -> Result<ImplAut, String> {
+    catch(|| {
+        let r = e.to_regex();
+        let a = r.to_automaton();
+        impl_aut!(&a)
+    })
+}
+
+pub fn check_expr(e: &RefExpr) -> Verdict {
+    if !e.well_formed() {
+        return Verdict::IllFormed;
+    }
+    let r = match RefAut::build(e) {
+        Ok(r) => r,
+        Err(n) => return Verdict::RefCapped(n),
+    };
+    let i = compile(e);
+    if r.non_od.is_some() {
+        return Verdict::NonOd { impl_panicked: i.is_err() };
+    }
+    match i {
+        Err(p) => Verdict::Panic(p),
+        Ok(i) => {
+            let p = explore(&i, &r, false);
+            Verdict::Checked {
+                states: p.states,
+                transitions: p.transitions,
+                mismatch: p.mismatch,
+                dead: if r.live[0] { i.dead_reachable() } else { 0 },
+                out_of_range: i.out_of_range,
+            }
+        }
+    }
+}
+
+fn fails(e: &RefExpr) -> bool {
+    matches!(check_expr(e), Verdict::Panic(_) | Verdict::Checked { mismatch: Some(_), .. })
+}
+
+/// The innermost failing sub-expression (the defect is attributed to its top combinator).
+fn blame(e: &RefExpr) -> RefExpr {
+    for c in e.children() {
+        if fails(c) {
+            return blame(c);
+        }
+    }
+    e.clone()
+}
+
+fn show_word(w: &[u8]) -> String {
+    format!("{:?}", String::from_utf8_lossy(w))
+}
+
+fn account(e: &RefExpr, out: &mut CaseOut) {
+    match check_expr(e) {
+        Verdict::IllFormed => out.count("ill-formed(marker under complement)", 1),
+        Verdict::RefCapped(n) => {
+            out.eval("reference-capped", false);
+            out.counter("reference_capped", 1);
+            let _ = n;
+        }
+        Verdict::NonOd { impl_panicked } => {
+            out.eval("skipped:not-output-deterministic", false);
+            out.counter("expressions_skipped_non_output_deterministic", 1);
+            out.counter(if impl_panicked { "non_od_rejected_by_library" } else { "non_od_accepted_by_library" }, 1);
+            if !impl_panicked && std::env::var("C19_DEBUG").is_ok() {
+                eprintln!("NONOD-ACCEPTED {}", e.show());
+            }
+        }
+        Verdict::Panic(p) => {
+            out.eval("panic", true);
+            let b = blame(e);
+            out.viol(Viol::new(
+                format!("regex:{}:panic", b.top()),
+                format!("compiling the output-deterministic expression {} panics: {p}", b.show()),
+                json!({"expression": e.show(), "blamed_subexpression": b.show(), "panic": p}),
+            ));
+        }
+        Verdict::Checked { states, transitions, mismatch, dead, out_of_range } => {
+            out.counter("product_states", states);
+            out.counter("product_transitions", transitions);
+            out.counter("expressions_checked", 1);
+            if dead > 0 {
+                out.counter("compiled_automata_with_dead_states", 1);
+            }
+            if out_of_range {
+                out.viol(Viol::new(
+                    format!("regex:{}:state-out-of-range", e.top()),
+                    format!("the automaton of {} uses a state index >= nb_states", e.show()),
+                    json!({"expression": e.show()}),
+                ));
+            }
+            match mismatch {
+                None => out.eval("equal", true),
+                Some(_) => {
+                    out.eval("mismatch", true);
+                    let b = blame(e);
+                    let Verdict::Checked { mismatch: Some(m), .. } = check_expr(&b) else { unreachable!() };
+                    let top = if matches!(b, RefExpr::MarkBytes(..) | RefExpr::MarkFn(..)) && b.contains_complement() { "mark-over-neg" } else { b.top() };
+                    out.viol(Viol::new(
+                        format!("regex:{top}:{}", m.kind),
+                        format!(
+                            "{}: on the word {} the reference gives {} but the compiled automaton gives {}",
+                            b.show(),
+                            show_word(&m.word),
+                            m.reference.as_ref().map(|x| format!("accept with markers {x:?}")).unwrap_or("reject".into()),
+                            m.implementation.as_ref().map(|x| format!("accept with markers {x:?}")).unwrap_or("reject".into()),
+                        ),
+                        json!({"expression": e.show(), "blamed_subexpression": b.show(), "word_bytes": m.word, "reference": m.reference, "implementation": m.implementation}),
+                    ));
+                }
+            }
+        }
+    }
+}
+
+fn main() {
+    let mut cx = Ctx::from_args("C19", Level::ModelChecking);
+    cx.worker_rayon_threads = Some(1);
+    let tier = cx.tier;
+    let at = atoms(tier.pick(3, 7));
+    let d1 = depth1(&at);
+    let mut le1: Vec<RefExpr> = at.clone();
+    le1.extend(d1.iter().cloned());
+    // ---- part 1: product check
+    let mut cases: Vec<(String, Vec<RefExpr>)> = vec![];
+    cases.push(("d0".into(), at.clone()));
+    cases.push(("d1".into(), d1.clone()));
+    cases.push(("d2:unary".into(), d1.iter().flat_map(|e| UNARY.iter().map(move |op| un(*op, e))).collect()));
+    for op in BINARY {
+        for l in &le1 {
+            let v: Vec<RefExpr> = le1.iter().filter(|r| l.depth() == 1 || r.depth() == 1).map(|r| bin(op, l, r)).collect();
+            cases.push((format!("d2:{op:?}:{}", l.show()), v));
+        }
+    }
+    let total: usize = cases.iter().map(|c| c.1.len()).sum();
+    eprintln!("expressions: {total}");
+    cx.run_cases("product", &cases, |batch| {
+        let mut out = CaseOut::batch();
+        for e in batch {
+            account(e, &mut out);
+        }
+        out
+    });
+    cx.states = cx.counter_value("product_states");
+    cx.transitions = cx.counter_value("product_transitions");
+    let _ = Tier::Quick;
+    cx.finish()
+}
